@@ -939,3 +939,71 @@ M('multiline_msg_first_line', 'C16', TB,
 M('frame_str_no_strip', 'C16', TB,
   """            ret += f'    {str(self.line).strip()}\\n'""",
   """            ret += f'    {str(self.line).rstrip()}\\n'""")
+
+SO = 'boltons/socketutils.py'
+# ---------------------------------------------------------------- C12
+M('find_offset_no_overlap', 'C12', SO,
+  """                    find_offset_start = -len(nxt) - len_delimiter + 1""",
+  """                    find_offset_start = -len(nxt)""")
+M('find_without_maxsize', 'C12', SO,
+  """                    offset = recvd.find(delimiter, find_offset_start, maxsize)""",
+  """                    offset = recvd.find(delimiter, find_offset_start)""")
+M('recv_until_exc_drops_buffer', 'C12', SO,
+  """            except Exception:
+                self.rbuf = bytes(recvd)
+                raise
+            val, self.rbuf = bytes(recvd[:offset]), bytes(recvd[rbuf_offset:])""",
+  """            except Exception:
+                raise
+            val, self.rbuf = bytes(recvd[:offset]), bytes(recvd[rbuf_offset:])""")
+M('recv_size_extra_off_by_one', 'C12', SO,
+  """            if extra_bytes:
+                last, self.rbuf = nxt[:-extra_bytes], nxt[-extra_bytes:]""",
+  """            if extra_bytes > 1:
+                last, self.rbuf = nxt[:-extra_bytes], nxt[-extra_bytes:]""")
+M('send_slice_off', 'C12', SO,
+  """                    sbuf[0] = sbuf[0][sent:]""",
+  """                    sbuf[0] = sbuf[0][sent + (sent == 2 and len(sbuf[0]) > 4):]""")
+M('peek_consumes', 'C12', SO,
+  """            data = self.recv_size(size, timeout=timeout)
+            self.rbuf = data + self.rbuf""",
+  """            data = self.recv_size(size, timeout=timeout)
+            self.rbuf = data[1:] + self.rbuf if len(data) == 4 else data + self.rbuf""")
+M('recv_size_timeout_drops', 'C12', SO,
+  """            except socket.timeout:
+                self.rbuf = b''.join(chunks)
+                msg = f'read {total_bytes} of {size} bytes'""",
+  """            except socket.timeout:
+                self.rbuf = b''.join(chunks[:2])
+                msg = f'read {total_bytes} of {size} bytes'""")
+M('recv_close_off_by_one', 'C12', SO,
+  """                recvd = self.recv_size(maxsize + 1, timeout)""",
+  """                recvd = self.recv_size(maxsize, timeout)""")
+M('recv_drops_tail', 'C12', SO,
+  """            if len(data) > size:
+                data, self.rbuf = data[:size], data[size:]
+        return data""",
+  """            if len(data) > size:
+                data, self.rbuf = data[:size], data[size + (size == 3):]
+        return data""")
+M('buffer_order', 'C12', SO,
+  """        with self._send_lock:
+            self.sbuf.append(data)
+        return""",
+  """        with self._send_lock:
+            self.sbuf.insert(len(self.sbuf) - (len(self.sbuf) == 2), data)
+        return""")
+M('ns_read_maxsize_ge', 'C12', SO,
+  """        if size > maxsize:
+            raise NetstringMessageTooLong(size, maxsize)
+        payload = self.bsock.recv_size(size)""",
+  """        if size >= maxsize:
+            raise NetstringMessageTooLong(size, maxsize)
+        payload = self.bsock.recv_size(size)""")
+M('with_delimiter_rbuf', 'C12', SO,
+  """                        if with_delimiter:  # include delimiter in return
+                            offset += len_delimiter
+                            rbuf_offset = offset""",
+  """                        if with_delimiter:  # include delimiter in return
+                            offset += len_delimiter
+                            rbuf_offset = offset - (len_delimiter == 3)""")
